@@ -151,17 +151,27 @@ def execute(case):
                              fmt_answer(df[0]), fmt_answer(df[2]), fmt_answer(df[1])))
                 return done(out, nt)
 
-        def compare(files, what, nontrivial):
+        def compare(files, what, nontrivial, coincidence=False):
             dd = fresh(data, files)
             out.evals += 1
+            # known finding (DESIGN 10.2): an index saved BEFORE a pack whose end position equals the size the packed
+            # file has grown back to passes the sanity test when the last transactions line up; its own signature
             try:
                 got = open_and_observe(dd, oids, tids)
             except Exception as e:
+                if coincidence:
+                    out.fail((PROPERTY, 'pre-pack-index-of-equal-size', 'accepted-by-coincidence'),
+                             '%s image opened with %s raised %r (no-index open works)' % (name, what, e))
+                    return
                 out.fail((PROPERTY, 'open-with-variant', 'raised', type(e).__name__),
                          '%s image opened with %s raised %r (no-index open works)' % (name, what, e))
                 return
             df = diff_obs(ref, got)
-            if df:
+            if df and coincidence:
+                out.fail((PROPERTY, 'pre-pack-index-of-equal-size', 'accepted-by-coincidence'),
+                         '%s image opened with %s: %s -> %s ; no-index open says %s' % (
+                             name, what, fmt_answer(df[0]), fmt_answer(df[2]), fmt_answer(df[1])))
+            elif df:
                 out.fail((PROPERTY, 'open-with-variant', 'differs', df[0][0]),
                          '%s image opened with %s: %s -> %s ; no-index open says %s' % (
                              name, what, fmt_answer(df[0]), fmt_answer(df[2]), fmt_answer(df[1])))
@@ -178,7 +188,7 @@ def execute(case):
                 continue            # index from the future of a crash image: outside the crash model
             stale = size < len(data) or pk < img_packs
             compare({'.index': b}, 'index saved after step %d (data size then %d, packs then %d)' % (
-                step, size, pk), stale)
+                step, size, pk), stale, coincidence=(pk < img_packs and size == len(data)))
             if stale:
                 out.label('stale-index')
             if pk < img_packs:
